@@ -1,5 +1,6 @@
 #!/bin/bash
-# tools/verify_seed.sh <ID> <n> [extra check IDs...]
+# tools/verify_seed.sh <ID> <n> [extra check IDs...]        (env SEED_WT=<worktree> SEED_OUT_N=<k> for later rounds:
+#   the agent's worktree is $SEED_WT instead of /tmp/seed/<ID>, its mutant <n> is kept as seeded/<ID>-<k>)
 # Confirms a seeded defect produced by a sub-agent in /tmp/seed/<ID>/SEED/<n>:
 #   (1) demo passes on the clean worktree, (2) with the patch the crate builds with
 #   websocket,value-stream and the existing suite passes, (3) the demo fails with the patch;
@@ -7,8 +8,8 @@
 # Writes /verif/seeded/<ID>-<n>/{patch.diff,demo.rs,meta.json,verify.log}.
 set -u
 ID="$1"; N="$2"; shift 2
-WT=/tmp/seed/$ID; S=$WT/SEED/$N
-OUT=/verif/seeded/$ID-$N
+WT=${SEED_WT:-/tmp/seed/$ID}; S=$WT/SEED/$N
+OUT=/verif/seeded/$ID-${SEED_OUT_N:-$N}
 mkdir -p "$OUT"
 LOG="$OUT/verify.log"; : > "$LOG"
 export CARGO_NET_OFFLINE=true CARGO_BUILD_JOBS=8
